@@ -22,8 +22,8 @@ import (
 func init() { families["gotext"] = gotextFamily }
 
 var gotextFns = map[string][]string{
-	"queue.go":   {"newq"},
-	"pipe.go":    {"Seq", "ToSeq", "StdErr"},
+	"queue.go": {"newq"},
+	"pipe.go":  {"Seq", "ToSeq", "StdErr"},
 }
 
 func gotextFamily(files []string) string {
